@@ -2,6 +2,7 @@ import Algobra.Proofs.Tables2
 
 namespace Algobra
 namespace Tables
+section UPart
 open UPoly
 
 section ParseU
@@ -188,5 +189,219 @@ theorem step_uOpAll_agree (desc : FieldDesc) {s : St α} (hs : StoreOKU V s) (op
   all_goals exact step_uOp_agree h desc hs _ hop
 
 end StepUStr
+end UPart
+
+/-! ## bivariate polynomials: congruence and closure -/
+namespace B
+open BPoly
+
+section Par
+variable {α : Type} {F F' : FOps α} {V : α → Prop}
+
+omit F F' in
+theorem AllM.append' {κ : Type} {f g : List (κ × α)} (hf : AllM V f) (hg : AllM V g) : AllM V (f ++ g) := by
+  intro c hc
+  rcases List.mem_append.1 hc with h | h
+  · exact hf c h
+  · exact hg c h
+
+theorem nil_V : AllM V ([] : BPoly α) := fun _ h => by cases h
+
+theorem erase_V {f : BPoly α} (hf : AllM V f) (d : Deg) : AllM V (erase f d) :=
+  fun x hx => hf x (List.mem_of_mem_filter hx)
+
+theorem put_V {f : BPoly α} (hf : AllM V f) (d : Deg) {v : α} (hv : V v) : AllM V (put f d v) := by
+  unfold put
+  split
+  · intro y hy
+    obtain ⟨x, hx, rfl⟩ := List.mem_map.1 hy
+    obtain ⟨k, c⟩ := x
+    simp only
+    split
+    · exact hv
+    · exact hf _ hx
+  · exact AllM.append' hf (fun x hx => by rw [List.mem_singleton] at hx; rw [hx]; exact hv)
+
+variable (hA : OpsAgree F F' V) (hC : Closed F V)
+include hA
+
+theorem coef_congr (f : BPoly α) (d : Deg) : coef F' f d = coef F f d := by
+  unfold coef; rw [hA.zero]
+
+omit hA in
+include hC in
+theorem coef_V {f : BPoly α} (hf : AllM V f) (d : Deg) : V (coef F f d) := by
+  unfold coef
+  split
+  · next k c h => exact hf _ (List.mem_of_find?_eq_some h)
+  · exact hC.zero
+
+theorem lc_congr (o : Order) (f : BPoly α) : lc F' o f = lc F o f := by
+  unfold lc; rw [coef_congr hA]
+
+omit hA in
+include hC in
+theorem lc_V (o : Order) {f : BPoly α} (hf : AllM V f) : V (lc F o f) := coef_V hC hf _
+
+theorem sortedTerms_congr (o : Order) (f : BPoly α) : sortedTerms F' o f = sortedTerms F o f := by
+  unfold sortedTerms; simp only [coef_congr hA]
+
+theorem equal_congr (f g : BPoly α) : equal F' f g = equal F f g := by
+  unfold equal; simp only [coef_congr hA, hA.beq]
+
+include hC
+
+omit hC in
+theorem setCoef_par {f : BPoly α} (hf : AllM V f) (d : Deg) {v : α} (hv : V v) :
+    setCoef F' f d v = setCoef F f d v ∧ AllM V (setCoef F f d v) := by
+  unfold setCoef
+  rw [hA.isZero]
+  split
+  · exact ⟨rfl, erase_V hf d⟩
+  · exact ⟨rfl, put_V hf d hv⟩
+
+theorem incCoef_par {f : BPoly α} (hf : AllM V f) (d : Deg) {v : α} (hv : V v) :
+    incCoef F' f d v = incCoef F f d v ∧ AllM V (incCoef F f d v) := by
+  unfold incCoef
+  have hc := coef_V hC hf d
+  simp only [hA.isZero, coef_congr hA, hA.add _ _ hc hv, true_and]
+  split
+  · exact hf
+  · split
+    · split
+      · exact erase_V hf d
+      · exact put_V hf d (hC.add _ _ hc hv)
+    · exact AllM.append' hf (fun x hx => by rw [List.mem_singleton] at hx; rw [hx]; exact hv)
+
+theorem decCoef_par {f : BPoly α} (hf : AllM V f) (d : Deg) {v : α} (hv : V v) :
+    decCoef F' f d v = decCoef F f d v ∧ AllM V (decCoef F f d v) := by
+  unfold decCoef
+  have hc := coef_V hC hf d
+  simp only [hA.isZero, coef_congr hA, hA.sub _ _ hc hv, hA.neg _ hv, true_and]
+  split
+  · exact hf
+  · split
+    · split
+      · exact erase_V hf d
+      · exact put_V hf d (hC.sub _ _ hc hv)
+    · exact AllM.append' hf (fun x hx => by
+        rw [List.mem_singleton] at hx; rw [hx]; exact hC.neg _ hv)
+
+theorem add_par {f g : BPoly α} (hf : AllM V f) (hg : AllM V g) :
+    add F' f g = add F f g ∧ AllM V (add F f g) := by
+  unfold add
+  exact foldl_par (AllM V) (fun x : Deg × α => V x.2) _ _
+    (fun acc x ha hx => incCoef_par hA hC ha x.1 hx) g f hg hf
+
+theorem sub_par {f g : BPoly α} (hf : AllM V f) (hg : AllM V g) :
+    sub F' f g = sub F f g ∧ AllM V (sub F f g) := by
+  unfold sub
+  exact foldl_par (AllM V) (fun x : Deg × α => V x.2) _ _
+    (fun acc x ha hx => decCoef_par hA hC ha x.1 hx) g f hg hf
+
+theorem neg_par {f : BPoly α} (hf : AllM V f) :
+    neg F' f = neg F f ∧ AllM V (neg F f) := by
+  unfold neg
+  constructor
+  · exact List.map_congr_left fun x hx => by
+      obtain ⟨d, c⟩ := x
+      show (d, F'.neg c) = (d, F.neg c)
+      rw [hA.neg c (hf _ hx)]
+  · intro y hy
+    obtain ⟨x, hx, rfl⟩ := List.mem_map.1 hy
+    exact hC.neg _ (hf x hx)
+
+theorem scale_par {f : BPoly α} (hf : AllM V f) {c : α} (hc : V c) :
+    scale F' f c = scale F f c ∧ AllM V (scale F f c) := by
+  unfold scale
+  rw [hA.isZero]
+  split
+  · exact ⟨rfl, nil_V⟩
+  · constructor
+    · exact List.map_congr_left fun x hx => by
+        obtain ⟨d, a⟩ := x
+        show (d, F'.mul a c) = (d, F.mul a c)
+        rw [hA.mul a c (hf _ hx) hc]
+    · intro y hy
+      obtain ⟨x, hx, rfl⟩ := List.mem_map.1 hy
+      exact hC.mul _ _ (hf x hx) hc
+
+/-- optional polynomial valid -/
+def OptM (V : α → Prop) (o : Option (BPoly α)) : Prop := ∀ v, o = some v → AllM V v
+
+theorem mulNoReduce_par {f g : BPoly α} (hf : AllM V f) (hg : AllM V g) :
+    mulNoReduce F' f g = mulNoReduce F f g ∧ OptM V (mulNoReduce F f g) := by
+  unfold mulNoReduce
+  refine foldl_par (OptM V) (fun x : Deg × α => V x.2) _ _ (fun acc x hacc hx => ?_) f (some [])
+    hf (fun v h => by cases h; exact nil_V)
+  obtain ⟨df, cf⟩ := x
+  refine foldl_par (OptM V) (fun y : Deg × α => V y.2) _ _ (fun acc y hacc hy => ?_) g acc hg hacc
+  obtain ⟨dg, cg⟩ := y
+  dsimp only
+  cases hd : addDegs df dg with
+  | none => cases acc <;> exact ⟨rfl, fun v h => by cases h⟩
+  | some sd =>
+    cases acc with
+    | none => exact ⟨rfl, fun v h => by cases h⟩
+    | some p =>
+      obtain ⟨e, hv⟩ := incCoef_par hA hC (hacc p rfl) sd (hC.mul _ _ hx hy)
+      dsimp only
+      rw [hA.mul _ _ hx hy, e]
+      exact ⟨rfl, fun v h => by cases h; exact hv⟩
+
+theorem lt_par (o : Order) {f : BPoly α} (hf : AllM V f) :
+    BPoly.lt F' o f = BPoly.lt F o f ∧ AllM V (BPoly.lt F o f) := by
+  unfold BPoly.lt
+  rw [lc_congr hA]
+  exact setCoef_par hA nil_V _ (lc_V hC o hf)
+
+theorem normalize_par (o : Order) {f : BPoly α} (hf : AllM V f) :
+    BPoly.normalize F' o f = BPoly.normalize F o f ∧ AllM V (BPoly.normalize F o f) := by
+  unfold BPoly.normalize
+  have hl := lc_V hC o hf
+  rw [lc_congr hA, hA.inv _ hl]
+  split
+  · exact ⟨rfl, hf⟩
+  · cases hi : F.inv (lc F o f) with
+    | none => exact ⟨rfl, hf⟩
+    | some i => exact scale_par hA hC hf (hC.inv _ i hl hi)
+
+theorem eval_par {f : BPoly α} (hf : AllM V f) {x y : α} (hx : V x) (hy : V y) :
+    eval F' f x y = eval F f x y ∧ V (eval F f x y) := by
+  unfold eval
+  rw [hA.zero]
+  refine foldl_par V (fun t : Deg × α => V t.2) _ _ (fun out t ho ht => ?_) f F.zero hf hC.zero
+  have h1 := hC.pow x t.1.1 hx
+  have h2 := hC.pow y t.1.2 hy
+  have h3 := hC.mul _ _ ht h1
+  have h4 := hC.mul _ _ h3 h2
+  simp only [hA.pow _ _ hx, hA.pow _ _ hy, hA.mul _ _ ht h1, hA.mul _ _ h3 h2, hA.add _ _ ho h4,
+    true_and]
+  exact hC.add _ _ ho h4
+
+theorem subShiftScale_par {f g : BPoly α} (hf : AllM V f) (hg : AllM V g) (i : Deg) {a : α}
+    (ha : V a) :
+    subShiftScale F' f g i a = subShiftScale F f g i a ∧ AllM V (subShiftScale F f g i a) := by
+  unfold subShiftScale
+  rw [hA.isZero, hA.isOne]
+  split
+  · exact ⟨rfl, hf⟩
+  · split
+    · refine foldl_par (AllM V) (fun t : Deg × α => V t.2) _ _ (fun acc t hacc ht => ?_) g f hg hf
+      obtain ⟨d, c⟩ := t
+      dsimp only
+      split
+      · exact ⟨rfl, hacc⟩
+      · exact decCoef_par hA hC hacc _ ht
+    · refine foldl_par (AllM V) (fun t : Deg × α => V t.2) _ _ (fun acc t hacc ht => ?_) g f hg hf
+      obtain ⟨d, c⟩ := t
+      dsimp only
+      split
+      · exact ⟨rfl, hacc⟩
+      · rw [hA.mul a _ ha ht]
+        exact decCoef_par hA hC hacc _ (hC.mul a _ ha ht)
+
+end Par
+end B
 end Tables
 end Algobra
